@@ -85,25 +85,6 @@ theorem C04_declaration (vs : List V) (h : IdsOk vs) (n : Str) (p d : Nat) (hp :
   exact ⟨h1, h3⟩
 #assert_axioms C04_declaration
 
-/-- the reader state after `<scxml>` -/
-def σscxml : RS :=
-  match run [.start t_scxml []] {} with
-  | .ok σ => σ
-  | .error _ => {}
-
-theorem σscxml_facts_aux : run [.start t_scxml []] {} = .ok σscxml ∧ σscxml.raw = none ∧
-    σscxml.cur.tag = .scxml ∧ σscxml.cur.state = 1 ∧ σscxml.nextId = 1 ∧ σscxml.nextDoc = 2 ∧
-    view σscxml.fsm = [⟨1, [95, 95, 105, 100, 49], 0, 1, []⟩] := by
-  have h : (match run [.start t_scxml []] {} with
-    | .ok _ => true
-    | .error _ => false) = true := by decide +kernel
-  refine ⟨?_, by decide +kernel, by decide +kernel, by decide +kernel, by decide +kernel, by decide +kernel,
-    by decide +kernel⟩
-  unfold σscxml
-  cases hr : run [.start t_scxml []] {} with
-  | ok σ => rfl
-  | error e => rw [hr] at h; simp at h
-
 /-- **State nesting and document order.**  For every forest of states with pairwise distinct ids,
 whatever their transitions refer to (states declared later, earlier, or never), reading
 `<scxml>` followed by the forest succeeds, and in the resulting table every state of the forest
